@@ -9,6 +9,7 @@ mod gen;
 mod prng;
 mod ser;
 mod termprops;
+mod typstprops;
 mod unicode;
 mod util;
 mod wf;
@@ -54,6 +55,7 @@ fn main() {
         "C10" => enumprops::run_c10(&o),
         "C12" => enumprops::run_c12(&o),
         "C15" => enumprops::run_c15(&o),
+        "C16" => typstprops::run_c16(&o),
         _ => { eprintln!("unknown property {prop}"); std::process::exit(2); }
     };
     rep.write(&o.outdir).expect("write report");
